@@ -457,8 +457,9 @@ Proof.
     rewrite forallb_forall in A.
     assert (Hin : In c (map N.of_nat (seq 0 128))).
     { apply in_map_iff. exists (N.to_nat c). split; [apply N2Nat.id | apply in_seq; lia]. }
-    specialize (A c Hin). rewrite H in A. simpl in A.
-    destruct (N.eqb c 32) eqn:E; [apply N.eqb_eq in E; congruence|]. simpl in A. exact A.
+    specialize (A c Hin). cbv beta in A.
+    destruct (lit_class rad50_table c); [reflexivity|].
+    rewrite H in A. destruct (N.eqb c 32) eqn:E; [apply N.eqb_eq in E; congruence|]. discriminate A.
 Qed.
 
 Lemma take_while_app p s rest :
